@@ -173,7 +173,19 @@ def check_resample_tree(rep, spec):
     variant = "root-type-%d" % spec["type"][0]
     t = make_tree(pid, xyz, r, spec["type"])
     try:
-        out = IsometricResampler(delta)(t)
+        if spec.get("rotate_branches"):
+            # the assembler pairs each resampled branch with the child it ends at BY POSITION, so the order in which a node's
+            # branches are stored must not matter: same pipeline as Resampler.__call__, branch lists cyclically rotated
+            from swcgeom.core import BranchTree
+            from swcgeom.transforms.branch import BranchIsometricResampler
+            from swcgeom.transforms.branch_tree import BranchTreeAssembler
+
+            carrier = "BranchTreeAssembler.__call__"
+            bt, rs, k0 = BranchTree.from_tree(t), BranchIsometricResampler(delta), int(spec["rotate_branches"])
+            bt.branches = {k: (lambda L: L[k0 % len(L):] + L[:k0 % len(L)])([rs(br) for br in brs]) for k, brs in bt.branches.items()}
+            out = BranchTreeAssembler()(bt)
+        else:
+            out = IsometricResampler(delta)(t)
     except Exception as e:
         rep(carrier, "operation-raises", spec, f"{type(e).__name__}: {e}", "a resampled tree", variant=variant + "/" + type(e).__name__)
         return
@@ -365,6 +377,15 @@ def run(ctx):
                     check_resample_tree(rep, spec)
                     _, crit, _ = cut_branches(list(pid))
                     ctx.case("resample-tree", dict(pid=list(pid), coords=mode, root_type=root_type, distance=delta), nontrivial=n >= 2)
+    # BranchTreeAssembler used directly with the per-node branch lists stored in another order (rotation by 1 and 2)
+    for pid in tables:
+        if max(list(pid).count(i) for i in range(len(pid))) < 2:
+            continue
+        for rot in (1, 2):
+            for delta in (DISTANCES[0], DISTANCES[-1]):
+                spec = dict(kind="resample-tree", distance=delta, coords="walk", rotate_branches=rot, **tree_input(pid, coords_for(pid), radii_for(len(pid)), 1))
+                check_resample_tree(rep, spec)
+                ctx.case("assembler-rotated-branch-lists", dict(pid=list(pid), rot=rot, distance=delta))
     # seeded random tail: larger trees, generic coordinates and spacings
     for _ in range(60 if quick else 1500):
         n = rng.randint(7, 14)
@@ -413,7 +434,7 @@ def run(ctx):
                 check_tree_smoother(rep, spec)
                 ctx.case("tree-smooth", dict(pid=list(pid), coords=mode, window=w), nontrivial=n >= 3)
     ctx.rule(f"IsometricResampler: every sorted parent table with <= {nmax} nodes x coordinates (lattice walk, lattice with coincident points, jittered) x spacing {DISTANCES} x root type (1, 3), "
-             "plus seeded random trees of 7-14 nodes; BranchLinearResampler(n in 2,3,4,7,16) / BranchIsometricResampler on 14 hand-made branches (zero-length segments, coincident "
+             "plus seeded random trees of 7-14 nodes; BranchTreeAssembler applied directly with every node's branch list rotated by 1 and 2; BranchLinearResampler(n in 2,3,4,7,16) / BranchIsometricResampler on 14 hand-made branches (zero-length segments, coincident "
              "points, closed loop) and random branches; BranchConvSmoother windows (1,2,3,5,8); TreeSmoother on every table x windows. Non-trivial = tree with >= 2 nodes "
              "(>= 3 for smoothing).", exhaustive=False)
 
